@@ -134,11 +134,30 @@ func genLiteralDefault(t *rapid.T) string {
 	}).Draw(t, "default")
 }
 
+// Ref is how a constraint, index or expression spells a column it refers to:
+// mostly as the definition does, sometimes with the ASCII letters in the other
+// case (identifiers are case-insensitive, quoted or not).
+func Ref(t *rapid.T, id Ident, label string) string {
+	if rapid.IntRange(0, 5).Draw(t, label+"case") != 0 {
+		return id.SQL
+	}
+	b := []byte(id.SQL)
+	for i, c := range b {
+		switch {
+		case c >= 'a' && c <= 'z':
+			b[i] = c - 'a' + 'A'
+		case c >= 'A' && c <= 'Z':
+			b[i] = c - 'A' + 'a'
+		}
+	}
+	return string(b)
+}
+
 // GenExpr draws an expression over the given columns. simple=true keeps to
 // the forms sqlittle's grammar knows.
 func GenExpr(t *rapid.T, cols []Ident, simple bool) string {
-	c := rapid.SampledFrom(cols).Draw(t, "ecol").SQL
-	c2 := rapid.SampledFrom(cols).Draw(t, "ecol2").SQL
+	c := Ref(t, rapid.SampledFrom(cols).Draw(t, "ecol"), "ecol")
+	c2 := Ref(t, rapid.SampledFrom(cols).Draw(t, "ecol2"), "ecol2")
 	forms := []string{
 		c + "+1", c + " || 'x'", "lower(" + c + ")", "abs(" + c + ")", c + " > 5", "(" + c + ")", c + " * 2", c + "-" + c2,
 		"length(" + c + ")", c + " >= 10", c + " = 'lit'", "coalesce(" + c + ", 0)", c + " + " + c2, "substr(" + c + ", 1, 2)",
@@ -188,7 +207,7 @@ func GenIndexedCols(t *rapid.T, cols []Ident, max int, label string) string {
 	perm := rapid.Permutation(cols).Draw(t, label+"p")[:n]
 	var parts []string
 	for _, c := range perm {
-		s := c.SQL
+		s := Ref(t, c, label)
 		if rapid.IntRange(0, 4).Draw(t, label+"c") == 0 {
 			s += " COLLATE " + rapid.SampledFrom(collations).Draw(t, label+"cn")
 		}
@@ -367,7 +386,7 @@ func GenIndex(t *rapid.T, name Ident, tb Table, unique, exprs, partial bool) Ind
 			s = GenExpr(t, ids, rapid.IntRange(0, 3).Draw(t, "iexprsimple") > 0)
 			ix.Plain = append(ix.Plain, false)
 		} else {
-			s = perm[i].SQL
+			s = Ref(t, perm[i], "ic")
 			ix.Plain = append(ix.Plain, true)
 		}
 		ix.Exprs = append(ix.Exprs, s)
@@ -378,7 +397,7 @@ func GenIndex(t *rapid.T, name Ident, tb Table, unique, exprs, partial bool) Ind
 		ix.Cols = append(ix.Cols, s)
 	}
 	if partial && rapid.IntRange(0, 3).Draw(t, "ipartial") == 0 {
-		c := rapid.SampledFrom(ids).Draw(t, "wc").SQL
+		c := Ref(t, rapid.SampledFrom(ids).Draw(t, "wc"), "wc")
 		ix.Where = rapid.SampledFrom([]string{c + " > 0", c + " IS NOT NULL", c + " = 'lit'", c + " >= 10", c + " < 5", c + " <> 1", "abs(" + c + ") > 2", c + " > 0 AND " + c + " < 100"}).Draw(t, "where")
 	}
 	return ix
